@@ -1552,6 +1552,9 @@ func (b *Block) Value(pos dvid.Point3d) uint64 {
 		}
 	}
 	n := b.NumSBLabels[sbNum]
+	if n == 0 {
+		return 0 // uninitialized sub-block: all voxels are label 0
+	}
 	bits := bitsFor(n)
 	if bits == 0 {
 		idx := b.SBIndices[idxPos]
